@@ -792,6 +792,37 @@ def transcript_follows_wire(chk):
     chk.floor('transcript natives', n, 16)
 
 
+def max_fragment_fields_agree(chk):
+    """The engine keeps the record payload limit twice: max_frag_len (what it sends and accepts) and log_max_frag_len (what the Maximum
+    Fragment Length extension advertises / checks, RFC 6066 section 4).  br_ssl_engine_set_buffers_bidi derives both from the buffer size:
+    max_frag_len must be 1 << X for the very X stored in log_max_frag_len - if the two are computed from different values (the
+    8192 -> 4096 rounding applied to one of them only), a peer that honours the advertised 4096 receives 8192-byte records and
+    fails with record overflow."""
+    R = 'max-fragment-fields-agree'
+    src = 'src/ssl/ssl_engine.c'
+    u = build.load_unit(src)
+    L = irf.Layouts(u)
+    F = next((irf.Func(u, f) for f in u['functions'] if f['name'] == 'br_ssl_engine_set_buffers_bidi' and f.get('blocks')), None)
+    if F is None:
+        raise AnalysisBroken('br_ssl_engine_set_buffers_bidi vanished')
+    om, ol = L.field('br_ssl_engine_context', 'max_frag_len')[0], L.field('br_ssl_engine_context', 'log_max_frag_len')[0]
+    RC = {'k': 'a', 'v': 0}
+    sm = [i for i in F.insts.values() if i['op'] == 'store' and F.addr_of(i['ops'][1]) == (RC, om)]
+    sl = [i for i in F.insts.values() if i['op'] == 'store' and F.addr_of(i['ops'][1]) == (RC, ol)]
+    if len(sm) != 1 or len(sl) != 1:
+        raise AnalysisBroken('set_buffers_bidi: %d / %d stores to max_frag_len / log_max_frag_len' % (len(sm), len(sl)))
+    inst = 'br_ssl_engine_set_buffers_bidi: max_frag_len = 1 << (the value stored in log_max_frag_len)'
+    v = F.strip_casts(sm[0]['ops'][0])
+    sh = F.insts[v['v']] if v['k'] == 'i' else None
+    if sh is None or sh['op'] != 'shl' or sh['ops'][0].get('v') != 1:
+        chk.violation(R, inst, F.where(sm[0]), 'max_frag_len is not stored as 1 << X', key=R)
+    elif F.strip_casts(sh['ops'][1]) == F.strip_casts(sl[0]['ops'][0]):
+        chk.ok(R, inst, F.where(sm[0]))
+    else:
+        chk.violation(R, inst, F.where(sl[0]), 'the shift amount and the stored logarithm are different values: the advertised / checked maximum fragment length is not '
+                      'the one the record layer uses', key=R)
+
+
 def ec_work_buffers(chk):
     """Every supported curve must be usable in the key exchange (P-521: 66-byte coordinates and scalars, 133-byte points).  The handshake
     code copies the shared X coordinate, the ephemeral scalar and the peer's point through fixed local arrays; an array smaller than
@@ -846,6 +877,7 @@ def run(tier):
     explicit_nonce_from_record(chk)
     ec_work_buffers(chk)
     transcript_follows_wire(chk)
+    max_fragment_fields_agree(chk)
     from .c02 import cbc_padding_length_range
     cbc_padding_length_range(chk)
     from .. import engio, oblig as _ob
